@@ -795,10 +795,8 @@ impl Harness for PubSubHarness {
         let left = leftovers("ps", pid);
         remove_leftovers("ps", pid);
         if std::env::var("VSIM_NOSIM").is_ok() { eprintln!("leftover scan took {:?}", t0.elapsed()); }
-        let g = match errs.lock() {
-            Ok(g) => g,
-            Err(p) => p.into_inner(), // the scenario panicked inside an operation
-        };
+        #[allow(unused_mut)]
+        let mut g = take_after_run(&errs);
         let mine = match self.prop {
             "C01" => &g.c01,
             "C02" => &g.c02,
